@@ -142,3 +142,40 @@ fn c05_compare_is_transitive_on_consistent_sets() {
     if ab == Equal && bc == Equal { assert!(ac == Equal); }
     kani::cover!(ab == Greater && bc == Greater);
 }
+
+
+/// The comparison data sets are built from the right fields (9.3.4, Table 12 / 9.3.2.4): for an Announce the
+/// grandmaster attributes and stepsRemoved of the message, identity of sender = clockIdentity of the message's
+/// sourcePortIdentity, identity of receiver = the receiving port; for D0 the defaultDS attributes, stepsRemoved 0,
+/// sender = own clock identity, receiver = (own clock identity, port 0). All inputs.
+#[kani::proof]
+#[kani::unwind(9)]
+fn c05_comparison_dataset_constructors() {
+    let m = crate::bmc::foreign_master::verif_fm::any_announce();
+    let rx = any_port_identity();
+    let d = ComparisonDataset::from_announce_message(&m, &rx);
+    assert!(d.gm_priority_1 == m.grandmaster_priority_1);
+    assert!(d.gm_identity == m.grandmaster_identity);
+    assert!(d.gm_clock_quality == m.grandmaster_clock_quality);
+    assert!(d.gm_priority_2 == m.grandmaster_priority_2);
+    assert!(d.steps_removed == m.steps_removed);
+    assert!(d.identity_of_senders == m.header.source_port_identity.clock_identity);
+    assert!(d.identity_of_receiver == rx);
+
+    let own = InternalDefaultDS {
+        clock_identity: any_clock_identity(),
+        number_ports: kani::any(),
+        clock_quality: any_clock_quality(),
+        priority_1: kani::any(),
+        priority_2: kani::any(),
+        domain_number: kani::any(),
+        slave_only: kani::any(),
+        sdo_id: any_sdo_id(),
+    };
+    let d0 = ComparisonDataset::from_own_data(&own);
+    assert!(d0.gm_priority_1 == own.priority_1 && d0.gm_priority_2 == own.priority_2);
+    assert!(d0.gm_identity == own.clock_identity && d0.gm_clock_quality == own.clock_quality);
+    assert!(d0.steps_removed == 0);
+    assert!(d0.identity_of_senders == own.clock_identity);
+    assert!(d0.identity_of_receiver == PortIdentity { clock_identity: own.clock_identity, port_number: 0 });
+}
